@@ -593,6 +593,22 @@ func (x *Exec) evalCall(st *State, fr *Frame, e ECall, sc *scope) (Val, error) {
 			return x.lookupIdent(st, fr, id.Name, c)
 		}
 	}
+	if e.Fun == "after" && e.Recv == nil && len(e.Args) == 2 {
+		// after("pattern", e): e evaluated in the heap as it was when the most recent call of a
+		// matching callee returned on this path
+		lit, ok := e.Args[0].(EStr)
+		if !ok || st == nil {
+			return Val{}, fmt.Errorf("after needs a string literal")
+		}
+		for _, k := range sortedKeys(st.retHeaps) {
+			if matchCallee(lit.V, k) {
+				c := sc.child()
+				c.inOld, c.oldHeap, c.oldWorlds = true, st.retHeaps[k], nil
+				return x.evalSpec(st, fr, e.Args[1], c)
+			}
+		}
+		return Val{}, fmt.Errorf("after: no call matching %q returned on this path", lit.V)
+	}
 	var args []Val
 	if e.Recv != nil {
 		// W(ctx).ghost handled in evalSel; method-style calls: treat x.f(args) as f(x, args)
@@ -631,6 +647,75 @@ func (x *Exec) evalCall(st *State, fr *Frame, e ECall, sc *scope) (Val, error) {
 			}
 		}
 		return Val{}, fmt.Errorf("len of %s", a.T.Sort)
+	case "sum", "sumfield":
+		// sum(s, n): s[0] + … + s[n-1] over an integer (or math.Int) slice, as a mathematical integer;
+		// sumfield(s, "F", n): the same over field F of struct elements. Defined by recursion on n; the
+		// executor adds the one-step unfolding at n as a ground fact wherever the term is mentioned
+		// (enough for accumulator loops, and free of quantifier triggers).
+		sl := args[0]
+		nArg := args[len(args)-1]
+		if sl.T.Sort != SSlice || sl.Typ == nil || st == nil {
+			return Val{}, fmt.Errorf("%s(): first argument is not a slice", e.Fun)
+		}
+		st0, ok := sl.Typ.Underlying().(*types.Slice)
+		if !ok {
+			return Val{}, fmt.Errorf("%s(): first argument is not a slice", e.Fun)
+		}
+		esort := x.S.SortOf(st0.Elem())
+		an, as := elemArrName(esort)
+		row := Select(heapArrIn(x, x.heapFor(st, sc), an, as), App(SRef, "s.base", sl.T))
+		off := App(SInt, "s.off", sl.T)
+		tag := mangle(esort)
+		elemAt := func(i Term) (Term, error) {
+			el := Select(row, App(SInt, "+", off, i))
+			if e.Fun == "sumfield" {
+				lit, ok := e.Args[1].(EStr)
+				si := x.S.StructInfo(st0.Elem())
+				if !ok || si == nil {
+					return Term{}, fmt.Errorf("sumfield(s, \"Field\", n) needs a slice of structs and a field name")
+				}
+				found := false
+				for fi := 0; fi < si.typ.NumFields(); fi++ {
+					if si.typ.Field(fi).Name() == lit.V {
+						el = App(si.fields[fi], x.S.fieldSel(si.sort, si.typ, fi), el)
+						found = true
+					}
+				}
+				if !found {
+					return Term{}, fmt.Errorf("sumfield: no field %s", lit.V)
+				}
+			}
+			switch el.Sort {
+			case SInt:
+				return el, nil
+			case SMInt:
+				return App(SInt, "mint.v", el), nil
+			}
+			return Term{}, fmt.Errorf("%s(): elements are not integers", e.Fun)
+		}
+		if e.Fun == "sumfield" {
+			if lit, ok := e.Args[1].(EStr); ok {
+				tag += "." + mangle(lit.V)
+			}
+		}
+		fn := "sum." + tag
+		x.D.DeclareFun(fn, []string{ArraySort(SInt, esort), SInt, SInt}, SInt)
+		if x.sumFuns == nil {
+			x.sumFuns = map[string]map[string]bool{}
+		}
+		if x.sumFuns[esort] == nil {
+			x.sumFuns[esort] = map[string]bool{}
+		}
+		x.sumFuns[esort][fn] = true
+		mk := func(n Term) Term { return App(SInt, fn, row, off, n) }
+		n := nArg.T
+		pred := App(SInt, "-", n, IntLit(1))
+		last, err := elemAt(pred)
+		if err != nil {
+			return Val{}, err
+		}
+		st.assume(Ite(App(SBool, "<=", n, IntLit(0)), Eq(mk(n), IntLit(0)), Eq(mk(n), App(SInt, "+", mk(pred), last))))
+		return Val{T: mk(n), Typ: types.Typ[types.UntypedInt]}, nil
 	case "val":
 		if args[0].T.Sort == SMInt {
 			return Val{T: App(SInt, "mint.v", args[0].T)}, nil
